@@ -1,8 +1,9 @@
 """C09 -- integer constant expressions in a cdef evaluate as C evaluates them.
 
 Theorems (lean/CffiVerif/Props/C09.lean): c_div_is_tdiv, c_mod_is_tmod, literal_agrees,
-char_agrees, eval_agrees_partial (all operands / intermediates signed), the error branches,
-and unrestricted_statement_false (witness `1u - 2`).
+define_literal_agrees, char_agrees, eval_agrees_partial (all operands / intermediates signed),
+eval_agrees_nowrap (any types, no wrap-around), spec_value_in_range, the error branches, and
+unrestricted_statement_false (witness `1u - 2`).
 
 Tie to the code, for random expression trees (depth <= 6):
   * cffi (in-process, in-line FFI and an out-of-line module written by emit_python_code)
@@ -29,14 +30,16 @@ MANIFEST = {
             "C11/LP64 typed-evaluation specification: _c_div is truncating division and the % formula is C's remainder for all "
             "integers; every well-formed C integer literal and simple character constant is read to its C value; for expression "
             "trees of any depth whose operands and intermediate results all have signed C types, whenever C defines the value "
-            "cffi accepts the expression and computes exactly that value (eval_agrees_partial); the unrestricted statement is "
-            "refuted at `1u - 2` (known finding). Model and specification are tied to the code and to gcc on every run by random "
+            "cffi accepts the expression and computes exactly that value (eval_agrees_partial), and more generally for every "
+            "expression in which no unsigned operation wraps and no negative value is converted to unsigned (eval_agrees_nowrap); "
+            "decimal/octal/hex literals in #define / static const are bound to their C value (define_literal_agrees); the "
+            "unrestricted statement is refuted at `1u - 2` (known finding). Model and specification are tied to the code and to gcc on every run by random "
             "expression trees evaluated by cffi (array lengths, enumerators, bit-field widths, #define, static const; in-line and "
             "out-of-line), by the Lean driver and by a gcc-compiled program.",
     "note": "Trusted: Lean kernel; pycparser (tokens and tree shape are inputs of the model); gcc as the C oracle; the harness "
             "(tree rendering, exact evaluator used only to classify the known finding); Python int(s, base) modelled for "
-            "pycparser-producible tokens only. Expressions with unsigned-typed operands are outside the proved theorem and are "
-            "covered by testing only.",
+            "pycparser-producible tokens only. Expressions in which an unsigned operation wraps are outside the proved theorems "
+            "(that is the known finding) and are covered by testing only.",
     "technique": "Lean 4 proof (induction on expression trees; BitVec lemmas for & | ^; case analysis of fdiv/tdiv) + differential "
                  "correspondence of cffi, the Lean model/spec driver and gcc on random expression trees",
 }
@@ -50,10 +53,11 @@ RULE = ("random expression trees of depth 0..6 over + - * / % << >> & | ^, unary
 ASSUMPTIONS = ["gcc 12 x86-64 LP64 is the C oracle", "pycparser delivers the token texts and the tree the harness rendered"]
 
 CLASSES = {
-    # an operand or intermediate result has an unsigned C type AND cffi computed the exact
-    # (unbounded) value: the disagreement is C's modular arithmetic / conversion to unsigned
+    # an operand or intermediate result has an unsigned C type, some operation wraps around (or
+    # converts a negative value to unsigned) according to the specification's `noWrap`, AND cffi
+    # computed the exact (unbounded) value: the disagreement is C's modular arithmetic
     "C09/unsigned-typed-operand":
-        lambda case: bool(case.get("unsigned_operand")) and case.get("cffi") is not None
+        lambda case: bool(case.get("unsigned_operand")) and bool(case.get("wraps")) and case.get("cffi") is not None
         and str(case.get("cffi")) == str(case.get("exact")),
 }
 
@@ -272,6 +276,9 @@ def tokens(t):
     if k in ("pos", "neg"):
         return [k] + tokens(t[1])
     if k == "unsup":
+        if t[1] in ("<", "==", "&&", "||"):
+            # a BinaryOp whose operator cffi does not know: rendered as `(inner op 1)`
+            return ["unsupbin"] + tokens(t[2]) + tokens(("lit", "1", 1))
         return ["unsup"]
     return [t[1]] + tokens(t[2]) + tokens(t[3])
 
@@ -621,6 +628,9 @@ def run_batch(ctx, n, oracle_only=False, directed=False):
         c["exact"], c["model"], c["spec"] = ex, model, spec
         c["unsigned_operand"] = (c["res"].get("allsigned") == "0" or
                                  (c["enum_prev"] is not None and c["prev_res"].get("allsigned") == "0"))
+        c["wraps"] = (c["res"].get("nowrap") == "0" or
+                      (c["enum_prev"] is not None and c["prev_res"].get("nowrap") == "0") or
+                      any(c["macro_res"][m[0]].get("nowrap") == "0" for m in c["macros"]))
         prelude_c, prelude_cffi = [], ""
         for name, mtext, _ in c["macros"]:
             prelude_c.append("#define %s %s" % (name, mtext))
@@ -683,6 +693,14 @@ def run_batch(ctx, n, oracle_only=False, directed=False):
             prev_defined = True
             if form == "enumref":
                 prev_defined = spec_of(c["prev_res"]) is not None
+                pv = model_of(c["prev_res"])
+                if isinstance(pv, int) and isinstance(model, int):
+                    lo, hi = min(pv, model), max(pv, model)
+                    if not ((lo >= -2 ** 63 and hi < 2 ** 63) if lo < 0 else hi < 2 ** 64):
+                        # the two enumerators fit no integer type together: gcc truncates (with a
+                        # warning), cffi refuses to build the type -- a C10 matter, not a value of C09
+                        prev_defined = False
+                        ctx.count("skipped:enum-has-no-type")
             if spec is not None and prev_defined:
                 if cdecl is not None:
                     gcc_items.append(((idx, form), prelude_c + [cdecl], "V%d" % idx, False))
@@ -754,7 +772,7 @@ def run_batch(ctx, n, oracle_only=False, directed=False):
 
 def case_of(c, form):
     return {"expr": c["text"], "form": form, "tokens": tokens(c["tree"]), "exact": c.get("exact"),
-            "unsigned_operand": c.get("unsigned_operand"), "macros": [(m[0], m[1]) for m in c["macros"]],
+            "unsigned_operand": c.get("unsigned_operand"), "wraps": c.get("wraps"), "macros": [(m[0], m[1]) for m in c["macros"]],
             "enum_prev": None if not c["enum_prev"] else (c["enum_prev"][0], render(c["enum_prev"][1])),
             "idx": c["idx"], "cffi": c.get("obs", {}).get(form) if isinstance(c.get("obs", {}).get(form), int) else None}
 
